@@ -6,9 +6,9 @@ package explore
 import (
 	"bytes"
 	"fmt"
-	"runtime/debug"
 	"io"
 	"log"
+	"runtime/debug"
 	"sort"
 	"strings"
 
@@ -201,7 +201,7 @@ type Sess struct {
 	// options
 	SkipStructure bool
 	BaseName      string
-	quietPanic    bool // do not report panics to PanicSink (the caller turns the returned error into its own violation)
+	quietPanic    bool   // do not report panics to PanicSink (the caller turns the returned error into its own violation)
 	History       []Op   // letters applied so far (for panic reports)
 	Panicked      string // non-empty once an API call panicked
 	RotateSeed    bool   // every Open is given a different (deterministic) answer should it draw a fresh hash seed
